@@ -365,3 +365,81 @@ pub mod rt {
         }
     }
 }
+
+pub mod dash {
+    //! `dashmap::{DashMap, DashSet}` look-alikes (hook H6): every call of the methods the checkers
+    //! use on their shared maps is a scheduling point, so that a controlled scheduler can interleave
+    //! another worker between any two map operations (e.g. between a lookup and the insertion that
+    //! acts on it). Everything else derefs to the real map.
+    use super::yield_point;
+    use std::borrow::Borrow;
+    use std::collections::hash_map::RandomState;
+    use std::hash::{BuildHasher, Hash};
+    use std::ops::Deref;
+
+    pub struct DashMap<K, V, S = RandomState>(dashmap::DashMap<K, V, S>);
+    impl<K: Eq + Hash, V, S: Default + BuildHasher + Clone> Default for DashMap<K, V, S> {
+        fn default() -> Self {
+            DashMap(dashmap::DashMap::default())
+        }
+    }
+    impl<K, V, S> Deref for DashMap<K, V, S> {
+        type Target = dashmap::DashMap<K, V, S>;
+        fn deref(&self) -> &Self::Target {
+            &self.0
+        }
+    }
+    impl<'a, K: 'a + Eq + Hash, V: 'a, S: BuildHasher + Clone> DashMap<K, V, S> {
+        pub fn insert(&self, key: K, value: V) -> Option<V> {
+            yield_point("map-insert");
+            self.0.insert(key, value)
+        }
+        pub fn entry(&'a self, key: K) -> dashmap::mapref::entry::Entry<'a, K, V> {
+            yield_point("map-entry");
+            self.0.entry(key)
+        }
+        pub fn contains_key<Q>(&self, key: &Q) -> bool
+        where
+            K: Borrow<Q>,
+            Q: Hash + Eq + ?Sized,
+        {
+            yield_point("map-contains");
+            self.0.contains_key(key)
+        }
+        pub fn get<Q>(&'a self, key: &Q) -> Option<dashmap::mapref::one::Ref<'a, K, V>>
+        where
+            K: Borrow<Q>,
+            Q: Hash + Eq + ?Sized,
+        {
+            yield_point("map-get");
+            self.0.get(key)
+        }
+    }
+
+    pub struct DashSet<K, S = RandomState>(dashmap::DashSet<K, S>);
+    impl<K: Eq + Hash, S: Default + BuildHasher + Clone> Default for DashSet<K, S> {
+        fn default() -> Self {
+            DashSet(dashmap::DashSet::default())
+        }
+    }
+    impl<K, S> Deref for DashSet<K, S> {
+        type Target = dashmap::DashSet<K, S>;
+        fn deref(&self) -> &Self::Target {
+            &self.0
+        }
+    }
+    impl<K: Eq + Hash, S: BuildHasher + Clone> DashSet<K, S> {
+        pub fn insert(&self, key: K) -> bool {
+            yield_point("set-insert");
+            self.0.insert(key)
+        }
+        pub fn contains<Q>(&self, key: &Q) -> bool
+        where
+            K: Borrow<Q>,
+            Q: Hash + Eq + ?Sized,
+        {
+            yield_point("set-contains");
+            self.0.contains(key)
+        }
+    }
+}
